@@ -161,6 +161,17 @@ func runEsl(sc M) {
 		db3, derr3 = signature.ReadSignatureDatabase(&pieceReader{b: in, max: 7, eofWithData: true})
 		return derr3
 	})
+	// ... and out of a *bytes.Buffer, the way variable contents reach the decoder (Unmarshal; the package-level reader over a Buffer)
+	var db4, db5 signature.SignatureDatabase
+	var derr4, derr5 error
+	o4, _ := guard(func() error {
+		derr4 = db4.Unmarshal(bytes.NewBuffer(append([]byte{}, in...)))
+		db5, derr5 = signature.ReadSignatureDatabase(bytes.NewBuffer(append([]byte{}, in...)))
+		if (derr4 == nil) != (derr5 == nil) {
+			return fmt.Errorf("Unmarshal and ReadSignatureDatabase over a Buffer disagree: %v / %v", derr4, derr5)
+		}
+		return derr4
+	})
 	ev := M{"sc": id, "ev": "call-end", "call": "ReadSignatureDatabase", "len": len(in), "outcome": o.Kind, "alloc": o.Alloc, "ms": o.Ms, "expect": expect}
 	if o.Kind == "panic" {
 		ev["panic"] = o.Panic
@@ -172,6 +183,9 @@ func runEsl(sc M) {
 	}
 	if agree && (o3.Kind != o.Kind || (o.Kind == "value" && !bytes.Equal(db.Bytes(), db3.Bytes()))) {
 		agree, why = false, fmt.Sprintf("decoding through a reader that delivers pieces gives %s / %d lists, through bytes.Reader %s / %d lists", o3.Kind, len(db3), o.Kind, len(db))
+	}
+	if agree && (o4.Kind != o.Kind || (o.Kind == "value" && (!bytes.Equal(db.Bytes(), db4.Bytes()) || !bytes.Equal(db.Bytes(), db5.Bytes())))) {
+		agree, why = false, fmt.Sprintf("decoding out of a bytes.Buffer (Unmarshal) gives %s / %d lists, through bytes.Reader %s / %d lists", o4.Kind, len(db4), o.Kind, len(db))
 	}
 	// an encoding handed out earlier stays what it was (the caller keeps it while encoding other databases)
 	if agree && o.Kind == "value" {
